@@ -261,6 +261,11 @@ def wiring (m : Method) : Row :=
       msg := if m.takesMsg then .sprintf (nS + nD) (nS + nD + 1) else .empty,
       err := .nil, shortCircuit := false }
 
+/-- where a store of the derivation code writes (regenerated into `Generated.GerrorBase.stores`) -/
+inductive StoreClass where
+  | fresh | local | shared
+  deriving DecidableEq, Repr
+
 /-- look a method up in a regenerated table (`lean/Generated/Gerror*.lean`, keyed by Go name) -/
 def rowOf (rows : List (String × Row)) (m : Method) : Option Row :=
   (rows.find? (fun p => p.1.toList == m.goName.toList)).map (·.2)
@@ -433,5 +438,53 @@ def derive (h : Heap) (d : Deriv) : Heap :=
   | none => h
 
 def runHeap (h : Heap) (ds : List Deriv) : Heap := ds.foldl derive h
+
+/-! ## memory accesses of concurrent derivations
+
+Which *locations* a derivation touches, at the granularity of whole objects (every field of an
+object counts as that object): `CloneBase` reads its receiver and writes only the object it has
+just allocated (`Generated.GerrorBase.stores`, regenerated from the source, lists every store and
+where it goes).  Goroutines that only derive do not synchronise with each other, so two accesses
+from different goroutines are never ordered by happens-before: a data race is exactly a pair of
+accesses to one location from two goroutines of which at least one is a write. -/
+
+inductive Access where
+  | read (addr : Nat) | write (addr : Nat)
+  deriving DecidableEq, Repr
+
+def Access.addr : Access → Nat
+  | .read a => a | .write a => a
+def Access.isWrite : Access → Bool
+  | .read _ => false | .write _ => true
+
+structure Ev where
+  tid : Nat
+  acc : Access
+  deriving DecidableEq, Repr
+
+/-- one factory-method call by goroutine `tid` on the object at `a`; `p` is what the allocator
+returned for `&GError{…}` -/
+def callEvents (tid a p : Nat) : List Ev := [⟨tid, .read a⟩, ⟨tid, .write p⟩]
+
+/-- the object the `i`-th call of a chain is made on: the factory, then the previous result -/
+def chainBase (alloc : Nat → Nat → Nat) (tid f : Nat) : Nat → Nat
+  | 0 => f
+  | i + 1 => alloc tid i
+
+/-- goroutine `tid` derives a chain of `k` calls starting at the shared factory at address `f`;
+`alloc tid i` is the address of its `i`-th result -/
+def threadEvents (alloc : Nat → Nat → Nat) (tid f : Nat) : Nat → List Ev
+  | 0 => []
+  | k + 1 => threadEvents alloc tid f k ++ callEvents tid (chainBase alloc tid f k) (alloc tid k)
+
+/-- a goroutine of the program: its id, the factory it starts from, the length of its chain -/
+structure Goroutine where
+  tid : Nat
+  factory : Nat
+  len : Nat
+
+/-- all accesses of a program (in no particular order: the race condition does not depend on it) -/
+def allEvents (alloc : Nat → Nat → Nat) (gs : List Goroutine) : List Ev :=
+  gs.flatMap (fun g => threadEvents alloc g.tid g.factory g.len)
 
 end GErrClone
